@@ -179,40 +179,59 @@ func runC04(c *Ctx) {
 			}
 		}
 	}
-	// revocation validity: heap.Remove only on the index != -1 edge, in the critical section of the test
+	// revocation validity: heap.Remove only on the index != -1 edge (in the function itself or, when the
+	// removal was extracted into a helper, at every call site), in the critical section of the test
 	idxF := p.Field("broker", "Snowflake", "index")
+	unclaimed := func(fn *ssa.Function) []Edge {
+		return condEdges(fn, false, func(a Atom) bool {
+			if a.Op != token.EQL {
+				return false
+			}
+			k, ok := constInt(a.Y)
+			return ok && k == -1 && isFieldLoadOf(a.X, idxF)
+		})
+	}
 	for _, fn := range broker {
 		for _, ci := range callsTo(fn, "container/heap.Remove") {
-			edges := condEdges(fn, false, func(a Atom) bool {
-				if a.Op != token.EQL {
-					return false
-				}
-				k, ok := constInt(a.Y)
-				return ok && k == -1 && isFieldLoadOf(a.X, idxF)
-			})
-			path := reachableWithout(fn, ci, edges)
-			c.check(len(edges) > 0 && path == nil, rule2, p.FnName(fn)+" revokes (heap.Remove) only on the index != -1 edge", p.instrPos(ci),
+			okG, where, path := p.guardedUp(ci, unclaimed, 3)
+			pos := p.instrPos(ci)
+			if where != nil {
+				pos = p.instrPos(where)
+			}
+			c.check(okG, rule2, p.FnName(fn)+" revokes (heap.Remove) only on the index != -1 edge", pos,
 				"", "heap.Remove is reachable for a snowflake whose index may be -1 (already claimed by a client)", p.pathString(path)...)
 			// index argument is that snowflake's index
 			c.check(isFieldLoadOf(ci.Common().Args[1], idxF), rule2, p.FnName(fn)+" removes at the snowflake's own index", p.instrPos(ci), "", "heap.Remove is given something other than the snowflake's index")
-			// test and removal in one critical section: index load under the lock and no Unlock in between
-			okCS := true
-			for _, e := range edges {
-				// the lock must be held where the index is read
-				ifi := e.From.Instrs[len(e.From.Instrs)-1].(*ssa.If)
-				a, _ := normCond(ifi.Cond)
-				ld, isInstr := a.X.(ssa.Instruction)
-				if !isInstr || le.Held(ld, "BrokerContext.snowflakeLock") < heldWrite {
+			// test and removal in one critical section: lock held at the Remove and where the index is read;
+			// the function that tests takes the lock once
+			okCS := le.Held(ci, "BrokerContext.snowflakeLock") >= heldWrite
+			testers := []*ssa.Function{fn}
+			if len(unclaimed(fn)) == 0 {
+				testers = nil
+				for _, cs := range p.realCallers(fn) {
+					testers = append(testers, cs.Parent())
+				}
+			}
+			for _, tf := range testers {
+				for _, e := range unclaimed(tf) {
+					ifi := e.From.Instrs[len(e.From.Instrs)-1].(*ssa.If)
+					a, _ := normCond(ifi.Cond)
+					ld, isInstr := a.X.(ssa.Instruction)
+					if !isInstr || le.Held(ld, "BrokerContext.snowflakeLock") < heldWrite {
+						okCS = false
+					}
+				}
+				nLock := 0
+				for _, l := range callsIn(tf) {
+					if k, kind := lockOp(l); kind == opLock && k == "BrokerContext.snowflakeLock" {
+						nLock++
+					}
+				}
+				if nLock != 1 {
 					okCS = false
 				}
 			}
-			nLock := 0
-			for _, l := range callsIn(fn) {
-				if k, kind := lockOp(l); kind == opLock && k == "BrokerContext.snowflakeLock" {
-					nLock++
-				}
-			}
-			c.check(okCS && nLock == 1 && le.Held(ci, "BrokerContext.snowflakeLock") >= heldWrite, rule2, p.FnName(fn)+" tests index and removes in one critical section", p.instrPos(ci), "", "the index test and the heap.Remove are not inside one snowflakeLock critical section")
+			c.check(okCS && len(testers) > 0, rule2, p.FnName(fn)+" tests index and removes in one critical section", p.instrPos(ci), "", "the index test and the heap.Remove are not inside one snowflakeLock critical section")
 		}
 	}
 	// (b) ProxyPoll.offerChannel: unconditional senders need a receiver that never walks away
